@@ -48,6 +48,7 @@ func init() {
 			{ID: "C12-R18", Title: "options keep what they are given", Floor: 1, Run: optionsKeepWhatTheyAreGiven},
 			{ID: "C12-R19", Title: "options that are refused are rolled back, the OS among them (shared with C11-R23)", Floor: 3, Run: refusedOptionsAreRolledBack},
 			{ID: "C12-R20", Title: "the virtual OS asks itself, not the package", Floor: 20, Run: theVirtualOSAsksItselfNotThePackage},
+			{ID: "C12-R21", Title: "an option of the VM sets its field whatever the value is (shared with C14-R26)", Floor: 3, Run: vmOptionsSetWhatTheyAreGiven},
 		},
 	})
 }
